@@ -123,8 +123,14 @@ def solve(formula, display=True, log=False, params={}):
         print('Solution status: {0}'.format(status))
         print('Running time: {0:0.4f}s'.format(stime))
 
-    if info['exitFlag'] in [0, 10]:
-        x_vec = sol['x']
+    x_vec = sol['x']
+    if (info['exitFlag'] in [0, 10] and (bool_idx or int_idx) and
+            np.any(np.abs(x_vec[int_idx]) >= 8388607)):
+        # ECOS_BB searches integers within +-8388608 only: a value at that
+        # limit is an artefact of the clipping (e.g. an unbounded program)
+        warnings.warn('Integer range of ECOS_BB exceeded.')
+        solution = Solution('ECOS', np.nan, None, status, stime)
+    elif info['exitFlag'] in [0, 10]:
         solution = Solution('ECOS', info['pcost'], x_vec, status, stime, y=y)
     else:
         warnings.warn('Fail to find the optimal solution.')
